@@ -9,6 +9,7 @@ from ..engine.mutate import Mutant, Variant, in_function, replace_once
 from ..engine.runner import Rule
 from ..engine.source import AnalysisError
 from . import C03
+from . import shared
 from .common import callee_name, calls_in
 
 EXPLANATION = (
@@ -285,10 +286,16 @@ def _inside_sorted(root, node):
     return False
 
 
+def rule_wakeup_independent_of_content(ctx):
+    """R-C02-5: whether a parked consumer is woken does not depend on whether the producer rewrote its output."""
+    shared.check_built_notifies(ctx, "a consumer that was parked on an OUTDATED output is woken only if the producer rewrites the file: with more than one job slot the build ends with a pending step, with one slot it succeeds")
+
+
 RULES = [
     Rule("R-C02-1", "observation never acquires ownership", rule_observation, min_instances=20),
     Rule("R-C02-2", "declaration lists and observable row orders are normalised", rule_normalised, min_instances=18),
     Rule("R-C02-3", "one conflict, one text", rule_one_text, min_instances=32),
+    Rule("R-C02-5", "wake-ups do not depend on whether an output was rewritten", rule_wakeup_independent_of_content, min_instances=1),
     Rule("R-C02-4", "the freshness clock is set in the transaction that publishes the outputs (amend outcome independent of arrival time)", C03.rule_atomic_completion, min_instances=3),
 ]
 
